@@ -71,13 +71,14 @@ def _floor_pre(interp):
 
 def _parseval(ck, D, N):
     for C in (1, 2):
-        if C == 2 and N**D > 8 and ck.tier != "thorough":
+        if C == 2 and N**D > 4 and ck.tier != "thorough":
             continue
         ins = [In("L", (), lo=0.5, hi=2.0), In("u", (C,) + (N,) * D), In("v", (C,) + (N,) * D)]
 
         def f(L, u, v):
+            z = jnp.zeros_like(v)
             return (M.MSE(u, v, domain_extent=L), M.fourier_MSE(u, v, domain_extent=L), M.RMSE(u, v, domain_extent=L), M.fourier_RMSE(u, v, domain_extent=L),
-                    M.nMSE(u, v, domain_extent=L), M.fourier_nMSE(u, v, domain_extent=L))
+                    M.nMSE(u, v, domain_extent=L), M.fourier_nMSE(u, v, domain_extent=L), M.MSE(v, z, domain_extent=L), M.fourier_MSE(v, z, domain_extent=L))
 
         enc = Encoded(f, ins, tag="pv")
         enc.validate(ck, what=f"parseval/D{D}N{N}/C{C}")
@@ -85,20 +86,39 @@ def _parseval(ck, D, N):
         pre = [L > 0] + enc.interp.sound_facts() + _floor_pre(enc.interp)
         o = [x[()] for x in enc.outs]
         tag = f"parseval/D{D}N{N}/C{C}"
-        ck.add(f"{tag}/MSE", sym.equal_goal(o[0], o[1]), pre, family="Parseval: MSE = fourier_MSE", timeout=300, replay=_metric_replay(D, N, C))
-        ck.add(f"{tag}/RMSE", sym.equal_goal(o[2], o[3]), pre, family="Parseval: RMSE = fourier_RMSE", timeout=300, stretch=(C == 2), replay=_metric_replay(D, N, C))
+        rp = _metric_replay(D, N, C)
+        mse_eq = sym.equal_goal(o[0], o[1])
+        ref_eq = sym.equal_goal(o[6], o[7])
+        lem = [g for g in (mse_eq, ref_eq) if not isinstance(g, bool)]
+        ck.add(f"{tag}/MSE", mse_eq, pre, family="Parseval: MSE = fourier_MSE", timeout=300, replay=rp)
+        ck.add(f"{tag}/MSE-of-reference", ref_eq, pre, family="Parseval: MSE = fourier_MSE", timeout=300, replay=rp)
+        # staged: the two obligations above are lemmas for the root and the normalised variants (same radicands / same quotient)
+        rad = []
+        for root, base in ((o[2], o[0]), (o[3], o[1])):  # RMSE is the Ackermannised root of a radicand: radicand = MSE is a separate (polynomial) obligation
+            r_ = sym.zr(root) if not isinstance(root, (int, float)) else None
+            ent = sym._SQRT_OF.get(r_.get_id()) if r_ is not None and z3.is_expr(r_) else None
+            if ent is not None:
+                g_ = sym.rcmp("eq", ent[1], base)
+                ck.add(f"{tag}/RMSE/radicand-{len(rad)}", g_, pre, family="Parseval: RMSE radicand is the MSE", timeout=300, replay=rp)
+                if not isinstance(g_, bool):
+                    rad.append(g_)
+        ck.add(f"{tag}/RMSE", sym.equal_goal(o[2], o[3]), pre + lem + rad, family="Parseval: RMSE = fourier_RMSE (given the MSE lemma)", timeout=300, stretch=(C == 2 or N**D > 4), replay=rp)  # N = 5: the radicand obligations above are decided; the last step (equal radicands, non-negative roots) is thorough-only
         # normalised variant: reference norm must be non-zero
         v = ins[2].sym
         nz = [z3.Or(*[v[(c,) + i] != 0 for i in np.ndindex((N,) * D)]) for c in range(C)]
-        ck.add(f"{tag}/nMSE", sym.equal_goal(o[4], o[5]), pre + nz, family="Parseval: nMSE = fourier_nMSE", timeout=300, stretch=(C == 2 or N**D > 5), replay=_metric_replay(D, N, C))
+        ck.add(f"{tag}/nMSE", sym.equal_goal(o[4], o[5]), pre + nz + lem, family="Parseval: nMSE = fourier_nMSE (given the MSE lemmas)", timeout=300, stretch=(C == 2), replay=rp)
         # L^D scaling of the absolute metric
         sc = z3.Real("sc")
         enc1 = Encoded(lambda L, s_, u, v: M.MSE(u, v, domain_extent=s_ * L), [ins[0], In("sc", (), lo=0.5, hi=2.0)] + ins[1:], tag="pv1")
-        ck.add(f"{tag}/L^D-scaling", sym.equal_goal(enc1.outs[0][()], sym.rmul(sym.rpow_int(sc, D), o[0])), [L > 0, sc > 0], family="MSE scales with L^D", replay=_metric_replay(D, N, C))
+        ck.add(f"{tag}/L^D-scaling", sym.equal_goal(enc1.outs[0][()], sym.rmul(sym.rpow_int(sc, D), o[0])), [L > 0, sc > 0], family="MSE scales with L^D", replay=rp)
         if C == 2:
             encc = Encoded(lambda L, u, v: M.MSE(u[0:1], v[0:1], domain_extent=L) + M.MSE(u[1:2], v[1:2], domain_extent=L), ins, tag="pvc")
-            ck.add(f"{tag}/channel-additivity", sym.equal_goal(o[0], encc.outs[0][()]), [L > 0], family="metrics add over channels", replay=_metric_replay(D, N, C))
-    ck.add(f"parseval/D{D}N{N}/twin", sym.equal_goal(o[0], sym.rmul(orc.fl(2), o[1])), pre + [ins[1].sym[(0,) * (D + 1)] != ins[2].sym[(0,) * (D + 1)]], family="C16/twin", expect="sat", timeout=300)
+            ck.add(f"{tag}/channel-additivity", sym.equal_goal(o[0], encc.outs[0][()]), [L > 0], family="metrics add over channels", replay=rp)
+        if C == 1:
+            # reachability twin on a thin slice (one non-zero sample): MSE = 2 fourier_MSE is refutable, i.e. the harness reaches the comparison
+            u, vv = ins[1].sym, ins[2].sym
+            thin = [u[i] == (1 if not any(i) else 0) for i in np.ndindex(u.shape)] + [vv[i] == (2 if not any(i) else 0) for i in np.ndindex(vv.shape)] + [L == 1]
+            ck.add(f"parseval/D{D}N{N}/twin", sym.equal_goal(o[0], sym.rmul(orc.fl(2), o[1])), pre + thin, family="C16/twin", expect="sat", timeout=300)
 
 
 def _metric_replay(D, N, C):
